@@ -1,41 +1,268 @@
 """C03  Split.run follows its documented block/branch schedule for every branch mix.
 
-spec/Split.tla     operational scheduler (active list + index) = declarative SplitSem (spec/SplitSem.tla)
-spec/SplitCT.tla   common-type fill/compute, fill/request, __call__ and Zip
+spec/Split.tla     operational scheduler (active list + index) = declarative SplitSem (spec/SplitSem.tla);
+                   scenario families: classic (<= 2 branches, 13 kinds), wide (every mix of the four classes,
+                   <= 4 branches), forms (every way of handing a branch to Split, result multiplicities,
+                   Sources with tails, Splits as branches), modes (the same object rerun / abandoned /
+                   two runs interleaved)
+spec/SplitCT.tla   common-type fill/compute, fill/request, __call__ and Zip (reset, fields)
 spec/Trace_Split.tla   validation of recorded runs of larger configurations
 """
+import collections
 import random
 
 from .. import core
 from .. import splitlib as sl
+from .. import tlcpar
 from ..util import exc_name
 
 NONE = sl.NONE
+# flow values that an implementation might confuse with "nothing" (identity / type is compared)
+ODD_VALUES = [0, None, False, "", (), 0.0, [], {}, (None, {}), ("d", {}), StopIteration, [[]]]
+
+
+def kind_key(k):
+    if k["t"] == "nest":
+        ibs = k.get("ibs", NONE)
+        return "nest[%s]%s" % ("+".join(kind_key(x) for x in k["sub"]), "" if ibs == NONE else "@%s" % ibs)
+    s = k["t"] + ("" if k.get("stop", NONE) == NONE else str(k["stop"]))
+    if k.get("form", "el") != "el":
+        s += "/" + k["form"]
+    m = k.get("m", NONE)
+    if m != NONE and not (k["t"] == "src" and m == 2):
+        s += "*%d" % m
+    return s
 
 
 def kinds_key(brs):
-    return "+".join(k["t"] + ("" if k.get("stop", NONE) == NONE else str(k["stop"])) for k in brs) or "empty"
+    return "+".join(kind_key(k) for k in brs) or "empty"
 
 
-def replay_run(ctx, rec):
+def bs_key(bs):
+    return "None" if bs == NONE else str(bs)
+
+
+def flat_kinds(brs):
+    for k in brs:
+        if k["t"] == "nest":
+            for x in flat_kinds(k["sub"]):
+                yield x
+        else:
+            yield k
+
+
+def make_or_violation(ctx, brs, bs, copy_buf):
+    """Construct the Split; a construction failure is reported under a key that names the offending
+    branch forms (not the whole scenario)."""
+    try:
+        return sl.make_split(brs, bs, copy_buf)
+    except Exception as exc:   # noqa
+        offenders = set()
+        for k in brs:
+            try:
+                sl.make_split([k], bs, copy_buf)
+            except Exception:   # noqa
+                offenders.add(kind_key(dict(k, stop=NONE)))
+        ctx.violation("Split.__init__:raised:%s:%s:bs=%s" % (exc_name(exc), "+".join(sorted(offenders)) or kinds_key(brs),
+                                                             bs_key(bs)),
+                      {"brs": brs, "bs": bs, "copy_buf": copy_buf, "exception": repr(exc)})
+        return None
+
+
+def run_list(s, flow):
+    with sl.deadline(3):
+        return [sl.untag(v) for v in s.run(flow)]
+
+
+# ---------------------------------------------------------------------------------------------- odd values
+def odd_ok(brs):
+    """Odd flow values make sense unless a branch computes with the values (filt: v % 2, pp: v + 100)."""
+    return all(k["t"] != "filt" and k.get("form", "el") != "pp" for k in flat_kinds(brs))
+
+
+def kind_of_tag(brs, b):
+    if b >= 10:
+        return brs[b // 10 - 1]["sub"][b % 10 - 1]
+    return brs[b - 1]
+
+
+def subst(exp, brs, objs):
+    """Expected records over positions -> expected records over the objects at these positions:
+    every payload entry becomes (is_flow_value, item)."""
+    res = []
+    for r in exp:
+        k, p = r["k"], r["p"]
+        if k in ("c", "r"):
+            kd = kind_of_tag(brs, r["b"])
+            if kd["t"] == "src":            # Source with a fill/compute tail: not flow values
+                q = [(False, x) for x in p]
+            elif kd.get("m", NONE) != NONE:
+                q = [(False, p[0])] + [(True, objs[i]) for i in p[1:]]
+            else:
+                q = [(True, objs[i]) for i in p]
+        elif k in ("m", "id"):
+            q = [(True, objs[i]) for i in p]
+        else:
+            q = [(False, x) for x in p]
+        res.append({"b": r["b"], "k": k, "p": q})
+    return res
+
+
+def same_obj(a, b, identity):
+    if identity:
+        return a is b
+    if type(a) is not type(b):
+        return False
+    if isinstance(a, (list, tuple)):
+        return len(a) == len(b) and all(same_obj(x, y, False) for x, y in zip(a, b))
+    return a == b or (a != a and b != b)
+
+
+def same_out(got, exp, identity):
+    if len(got) != len(exp):
+        return False
+    for g, e in zip(got, exp):
+        if g["b"] != e["b"] or g["k"] != e["k"] or len(g["p"]) != len(e["p"]):
+            return False
+        for x, (is_value, y) in zip(g["p"], e["p"]):
+            if is_value:
+                if not same_obj(x, y, identity):
+                    return False
+            elif type(x) is not type(y) or x != y:
+                return False
+    return True
+
+
+# ---------------------------------------------------------------------------------------------- replay
+def replay_run(ctx, rec, idx=0):
     brs, n, bs, exp = rec["brs"], rec["N"], rec["bs"], rec["out"]
+    mode, cut = rec.get("mode", "rerun"), rec.get("cut")
+    key = kinds_key(brs)
     ok = True
     for copy_buf in (True, False):
-        try:
-            outs = sl.run_split(brs, n, bs, copy_buf, runs=2)
-        except Exception as exc:   # noqa
-            outs = ["raised " + exc_name(exc)]
-        if outs[0] != exp:
+        made = make_or_violation(ctx, brs, bs, copy_buf)
+        if made is None:
             ok = False
-            ctx.violation("Split.run:%s:bs=%s:N=%d" % (kinds_key(brs), "None" if bs == NONE else bs, n),
-                          {"brs": brs, "N": n, "bs": bs, "copy_buf": copy_buf, "expected": exp, "observed": outs[0]})
-        elif outs[1:] != [exp]:
-            # Rerun of Split.tla: the same object, all branches active again
-            ok = False
-            ctx.violation("Split.run:second-run-of-same-object:%s" % kinds_key(brs),
-                          {"brs": brs, "N": n, "bs": bs, "copy_buf": copy_buf, "expected": exp, "second_run": outs[1:]})
-    ctx.case(["run", brs, n, bs], nontrivial=bool(brs) and n > 0)
+            continue
+        s, bld = made
+        detail = {"brs": brs, "N": n, "bs": bs, "copy_buf": copy_buf, "expected": exp}
+        if mode == "rerun":
+            # run 1 on an iterator; run 2 = Rerun of Split.tla on the same object, fed from another kind of
+            # flow (list / tuple / range / generator): Split.run accepts any iterable
+            fk = "gen" if sl.WATCHDOG["hit"] else sl.FLOW_KINDS[1 + (idx + int(copy_buf)) % 4]
+            try:
+                out1 = run_list(s, iter(range(n)))
+            except Exception as exc:   # noqa
+                out1 = "raised " + exc_name(exc)
+            if out1 != exp:
+                ok = False
+                ctx.violation("Split.run:%s:bs=%s:N=%d" % (key, bs_key(bs), n), dict(detail, observed=out1))
+                continue
+            bld.hreset()
+            try:
+                out2 = run_list(s, sl.make_flow(range(n), fk))
+            except Exception as exc:   # noqa
+                out2 = "raised " + exc_name(exc)
+            if out2 != exp:
+                ok = False
+                # is it the second use of the object, or the kind of flow?
+                try:
+                    fresh = sl.run_split(brs, n, bs, copy_buf, flow=fk)
+                except Exception as exc:   # noqa
+                    fresh = "raised " + exc_name(exc)
+                if fresh != exp:
+                    ctx.violation("Split.run:%s-flow:%s" % (fk, key), dict(detail, flow=fk, observed=fresh))
+                else:
+                    ctx.violation("Split.run:second-run-of-same-object:%s" % key, dict(detail, second_run=out2))
+                continue
+            # "every flow": arbitrary objects, the falsy ones included
+            if n and odd_ok(brs):
+                objs = [ODD_VALUES[(i + idx) % len(ODD_VALUES)] for i in range(n)]
+                bld.hreset()
+                try:
+                    with sl.deadline(3):
+                        got = [sl.untag(v) for v in s.run(iter(objs))]
+                except Exception as exc:   # noqa
+                    got = "raised " + exc_name(exc)
+                # values are compared by type and equality: whether a branch sees the very object or a copy
+                # is the subject of C04 (copy_buf), not of the schedule
+                if isinstance(got, str) or not same_out(got, subst(exp, brs, objs), identity=False):
+                    ok = False
+                    ctx.violation("Split.run:odd-values:%s" % key,
+                                  dict(detail, flow=repr(objs), observed=repr(got)))
+        elif mode == "abort":
+            # Abort of Split.tla: the consumer takes cut.n results and closes the generator ...
+            try:
+                g = s.run(iter(range(n)))
+                with sl.deadline(3):
+                    first = [sl.untag(v) for v in sl.take(g, cut["n"])]
+                    g.close()
+                bld.hreset()
+                second = run_list(s, iter(range(n)))
+            except Exception as exc:   # noqa
+                first, second = "raised " + exc_name(exc), None
+            if first != exp[:cut["n"]] or second != exp:
+                ok = False
+                ctx.violation("Split.run:run-after-abandoned-run:%s" % key,
+                              dict(detail, cut=cut, first=first, second=second))
+            # ... or the flow raises when the next block is read: the exception reaches the caller after
+            # the results of the blocks read so far, and the object can be run again
+            if cut["ph"] == "read" and cut["pos"] < n:
+                made = make_or_violation(ctx, brs, bs, copy_buf)
+                if made is None:
+                    continue
+                s, bld = made
+                got, err = [], None
+                try:
+                    with sl.deadline(3):
+                        for v in s.run(sl.raising_flow(n, cut["pos"])):
+                            got.append(sl.untag(v))
+                except sl.FlowBoom:
+                    err = "FlowBoom"
+                except Exception as exc:   # noqa
+                    err = exc_name(exc)
+                bld.hreset()
+                try:
+                    second = run_list(s, iter(range(n)))
+                except Exception as exc:   # noqa
+                    second = "raised " + exc_name(exc)
+                if err != "FlowBoom" or got != exp[:cut["n"]] or second != exp:
+                    ok = False
+                    ctx.violation("Split.run:run-after-raising-flow:%s" % key,
+                                  dict(detail, cut=cut, error=err, before_error=got, second=second))
+        elif mode == "inter":
+            # Suspend / Resume: a second run of the same object while the first generator is alive
+            try:
+                g1 = s.run(iter(range(n)))
+                with sl.deadline(3):
+                    first = [sl.untag(v) for v in sl.take(g1, cut["n"])]
+                    second = [sl.untag(v) for v in s.run(iter(range(n)))]
+                    rest = [sl.untag(v) for v in g1]
+            except Exception as exc:   # noqa
+                first, second, rest = "raised " + exc_name(exc), None, []
+            if isinstance(first, str) or first + rest != exp or second != exp:
+                ok = False
+                ctx.violation("Split.run:interleaved-runs:%s" % key,
+                              dict(detail, cut=cut, first_run=[first, rest], second_run=second))
+    ctx.case(["run", mode, cut, brs, n, bs], nontrivial=bool(brs) and n > 0)
     return ok
+
+
+def ct_elements(kind, nb, ms, form):
+    import lena.core
+    els = []
+    for b in range(nb):
+        if kind == "src":
+            els.append(lena.core.Source(sl.TSrc(b + 1, ms[b])))
+            continue
+        el = sl.TFC(b + 1, None, ms[b]) if kind == "fc" else sl.TFR(b + 1, None, ms[b])
+        if form == "tup":
+            el = (el,)
+        elif form == "obj":
+            el = (lena.core.FillComputeSeq(el) if kind == "fc"
+                  else lena.core.FillRequestSeq(el, reset=False, buffer_input=True))
+        els.append(el)
+    return els
 
 
 def replay_ct(ctx, rec):
@@ -43,104 +270,193 @@ def replay_ct(ctx, rec):
     import lena.core
     import lena.flow
     kind, nb, ms, zipped = rec["kind"], rec["nb"], rec["ms"], rec["zip"]
-    if kind == "src":
-        els = [lena.core.Source(sl.TSrc(b + 1)) for b in range(nb)]
-    elif kind == "fc":
-        els = [sl.TFC(b + 1, None, ms[b]) for b in range(nb)]
-    else:
-        els = [sl.TFR(b + 1, None, ms[b]) for b in range(nb)]
+    form, zipf = rec.get("form", "el"), rec.get("zipf", "none")
+    fields = {"none": None, "list": ["f%d" % i for i in range(nb)], "str": " ".join("f%d" % i for i in range(nb))}[zipf]
     key = "%s:%s:nb=%d" % ("Zip" if zipped else "Split", kind, nb)
+    ctx.case(["ct", kind, nb, ms, zipped, form, zipf, rec["hist"]], nontrivial=len(rec["hist"]) > 1)
+    good = True
+    for copy_buf in ((True,) if zipped else (True, False)):
+        els = ct_elements(kind, nb, ms, form)
+        try:
+            if zipped:
+                obj = lena.flow.Zip(els, name="zz", fields=fields) if fields else lena.flow.Zip(els)
+            else:
+                obj = lena.core.Split(els, copy_buf=copy_buf)
+        except Exception as exc:   # noqa
+            ctx.violation("%s.__init__:raised:%s:%s/%s" % ("Zip" if zipped else "Split", exc_name(exc), kind, form),
+                          {"scenario": rec, "exception": repr(exc)})
+            return False
+        try:
+            outs = []
+            for op in rec["hist"]:
+                if op[0] == "f":
+                    obj.fill(op[1])
+                elif op[0] == "c":
+                    outs.append(list(obj.compute()))
+                elif op[0] == "r":
+                    outs.append(list(obj.request()))
+                elif op[0] == "x":
+                    obj.reset()
+                elif op[0] == "call":
+                    outs.append(list(obj()))
+        except Exception as exc:   # noqa
+            ctx.violation(key + ":raised:" + exc_name(exc), {"scenario": rec, "exception": repr(exc)})
+            return False
+        got = []
+        for o in outs:
+            if zipped:
+                got.append({"z": [[sl.untag(x) for x in tup] for tup in o]})
+                if fields and not all(type(tup).__name__ == "zz" and tup._fields == tuple("f%d" % i for i in range(nb))
+                                      for tup in o):
+                    ctx.violation("Zip:fields:not-the-named-tuple", {"scenario": rec, "observed": repr(o)})
+                    good = False
+                if not fields and not all(type(tup) is tuple for tup in o):
+                    ctx.violation("Zip:not-a-tuple", {"scenario": rec, "observed": repr(o)})
+                    good = False
+            else:
+                got.append({"s": [sl.untag(x) for x in o]})
+        if got != rec["outs"]:
+            ctx.violation(key, {"scenario": rec, "copy_buf": copy_buf, "observed": got})
+            return False
+        # same meaning as run: fill;...;compute == Split.run on the same flow (one result per branch)
+        if kind == "fc" and not zipped and rec["hist"] and rec["hist"][-1][0] == "c":
+            n = sum(1 for op in rec["hist"] if op[0] == "f")
+            els2 = ct_elements(kind, nb, ms, form)
+            r = [sl.untag(x) for x in lena.core.Split(els2, copy_buf=copy_buf).run(iter(range(n)))]
+            if r != got[-1]["s"]:
+                ctx.violation("Split:fill+compute!=run", {"scenario": rec, "run": r, "fill_compute": got[-1]["s"]})
+                good = False
+    return good
+
+
+def expect_exc(ctx, key, fn, exc_type):
     try:
-        obj = lena.flow.Zip(els) if zipped else lena.core.Split(els)
-        outs = []
-        for op in rec["hist"]:
-            if op[0] == "f":
-                obj.fill(op[1])
-            elif op[0] == "c":
-                outs.append(list(obj.compute()))
-            elif op[0] == "r":
-                outs.append(list(obj.request()))
-            elif op[0] == "call":
-                outs.append(list(obj()))
+        fn()
+        ctx.violation(key + ":accepted", {})
+    except exc_type:
+        pass
     except Exception as exc:   # noqa
-        ctx.violation(key + ":raised:" + exc_name(exc), {"scenario": rec, "exception": repr(exc)})
-        return False
-    got = []
-    for o in outs:
-        if zipped:
-            got.append({"z": [[sl.untag(x) for x in tup] for tup in o]})
-        else:
-            got.append({"s": [sl.untag(x) for x in o]})
-    ctx.case(["ct", kind, nb, ms, zipped, rec["hist"]], nontrivial=len(rec["hist"]) > 1)
-    if got != rec["outs"]:
-        ctx.violation(key, {"scenario": rec, "observed": got})
-        return False
-    # same meaning as run: fill;...;compute == Split.run on the same flow (one result per branch)
-    if kind == "fc" and not zipped and rec["hist"] and rec["hist"][-1][0] == "c":
-        n = sum(1 for op in rec["hist"] if op[0] == "f")
-        els2 = [sl.TFC(b + 1, None, ms[b]) for b in range(nb)]
-        r = [sl.untag(x) for x in lena.core.Split(els2).run(iter(range(n)))]
-        if r != got[-1]["s"]:
-            ctx.violation("Split:fill+compute!=run", {"scenario": rec, "run": r, "fill_compute": got[-1]["s"]})
-    return True
+        ctx.violation(key + ":" + exc_name(exc), {"exception": repr(exc)})
+    ctx.case(["misc", key])
 
 
 def misc(ctx):
     import lena.core
     import lena.flow
-    # the empty Split is the identity on arbitrary objects
-    objs = [object(), "s", (1, {"a": 1}), None, 3.5]
+    # the empty Split is the identity on arbitrary objects, for every kind of flow
+    objs = [object(), "s", (1, {"a": 1}), None, 3.5, 0, "", {}, [], False, (None, {})]
     for copy_buf in (True, False):
-        out = list(lena.core.Split([], copy_buf=copy_buf).run(iter(objs)))
-        ctx.case(["empty-split", copy_buf])
-        if len(out) != len(objs) or any(a is not b for a, b in zip(out, objs)):
-            ctx.violation("empty-split-identity", {"copy_buf": copy_buf})
-    # bufsize must be a natural number or None; seqs a list
-    for bad in (0, -1, 1.5):
-        try:
-            lena.core.Split([], bufsize=bad)
-            ctx.violation("bufsize-accepted:%r" % (bad,), {})
-        except lena.core.LenaValueError:
-            pass
-        except Exception as exc:   # noqa
-            ctx.violation("bufsize:%r:%s" % (bad, exc_name(exc)), {})
-        ctx.case(["bad-bufsize", bad])
-    # __call__ is offered only for Sources
-    try:
-        list(lena.core.Split([sl.TFC(1)])())
-        ctx.violation("call-on-non-source", {})
-    except lena.core.LenaAttributeError:
-        pass
-    except Exception as exc:   # noqa
-        ctx.violation("call-on-non-source:" + exc_name(exc), {})
+        for fk in ("iter", "list", "tuple", "gen"):
+            out = list(lena.core.Split([], copy_buf=copy_buf).run(sl.make_flow(objs, fk)))
+            ctx.case(["empty-split", copy_buf, fk])
+            if len(out) != len(objs) or any(a is not b for a, b in zip(out, objs)):
+                ctx.violation("empty-split-identity", {"copy_buf": copy_buf, "flow": fk})
+    # bufsize must be a natural number or None
+    for bad in (0, -1, 1.5, -2.5):
+        expect_exc(ctx, "bufsize:%r" % (bad,), lambda: lena.core.Split([], bufsize=bad), lena.core.LenaValueError)
+        expect_exc(ctx, "bufsize:%r:with-branches" % (bad,), lambda: lena.core.Split([sl.TFC(1), sl.TSeq(2)], bufsize=bad),
+                   lena.core.LenaValueError)
+    # seqs must be a list; its members sequences or convertible to them
+    for name, bad in (("tuple", ()), ("tuple1", (sl.TFC(1),)), ("element", sl.TFC(1)), ("None", None),
+                      ("generator", (x for x in [sl.TFC(1)]))):
+        expect_exc(ctx, "seqs-not-a-list:" + name, lambda: lena.core.Split(bad), lena.core.LenaTypeError)
+    for name, bad in (("int", 5), ("None", None), ("str", "abc"), ("object", object())):
+        expect_exc(ctx, "unknown-branch-type:" + name, lambda: lena.core.Split([sl.TFC(1), bad]), lena.core.LenaTypeError)
+    # __call__ is offered only when every branch is a Source
+    for name, els in (("fc", lambda: [sl.TFC(1)]), ("fr", lambda: [sl.TFR(1)]), ("seq", lambda: [sl.TSeq(1)]),
+                      ("empty", lambda: []),
+                      ("src+fc", lambda: [lena.core.Source(sl.TSrc(1)), sl.TFC(2)]),
+                      ("fc+src", lambda: [sl.TFC(1), lena.core.Source(sl.TSrc(2))]),
+                      ("src+seq", lambda: [lena.core.Source(sl.TSrc(1)), sl.TSeq(2)])):
+        expect_exc(ctx, "call-on-non-source:" + name, lambda: list(lena.core.Split(els())()), lena.core.LenaAttributeError)
+    # the methods of a common type are offered for that type (fill+compute, fill+request, call)
+    offered = {
+        "fc": (lambda: [sl.TFC(1), (sl.TFC(2),)], ("fill", "compute")),
+        "fr": (lambda: [sl.TFR(1), lena.core.FillRequestSeq(sl.TFR(2), reset=False, buffer_input=True)], ("fill", "request")),
+    }
+    for name, (els, meths) in offered.items():
+        s = lena.core.Split(els(), bufsize=3)
+        ctx.case(["offers", name])
+        if not all(callable(getattr(s, m, None)) for m in meths):
+            ctx.violation("common-type:%s:methods-not-offered" % name, {"methods": meths})
+    # Zip: fields must match the number of sequences
+    expect_exc(ctx, "Zip:fields-length", lambda: lena.flow.Zip([sl.TFC(1), sl.TFC(2)], fields=["a"]), lena.core.LenaTypeError)
+    expect_exc(ctx, "Zip:fields-length:3", lambda: lena.flow.Zip([sl.TFC(1)], fields=["a", "b", "c"]), lena.core.LenaTypeError)
+
+
+FORMS = {"src": ["el", "el", "obj", "sub", "fct"], "fc": ["el", "el", "tup", "obj", "pp", "sl"],
+         "fr": ["el", "el", "tup", "obj", "pp", "sl"], "map": ["el", "tup", "obj", "pp"],
+         "filt": ["el", "tup", "obj", "pp", "attr", "attr2"], "seq": ["el", "el", "tup", "obj", "pp", "attr", "attr2"]}
+
+
+def full_kind(t, stop=NONE, m=NONE, form="el", sub=(), ibs=NONE):
+    return {"t": t, "stop": stop, "m": 2 if (t == "src" and m == NONE) else m, "form": form, "sub": list(sub), "ibs": ibs}
+
+
+def random_kind(rnd, nested_ok=True):
+    t = rnd.choice(["src", "fc", "fc", "fr", "fr", "map", "filt", "seq", "nest"])
+    if t == "nest":
+        if not nested_ok:
+            t = "seq"
+        else:
+            cls = rnd.choice(["fc", "fr", "run", "run"])
+            if cls == "fc":
+                sub = [full_kind("fc", m=rnd.choice([NONE, NONE, 0, 2])) for _ in range(rnd.randint(1, 3))]
+            elif cls == "fr":
+                sub = [full_kind("fr", m=rnd.choice([NONE, NONE, 0, 2])) for _ in range(rnd.randint(1, 3))]
+            else:
+                sub = [rnd.choice([full_kind("src"), full_kind("fr"), full_kind("map"), full_kind("seq"), full_kind("filt")])
+                       for _ in range(rnd.randint(0, 3))]
+                if sub and all(k["t"] == "fr" for k in sub):
+                    sub.append(full_kind("seq"))
+            return full_kind("nest", sub=sub, ibs=rnd.choice([NONE, 1, 2, 3]))
+    form = rnd.choice(FORMS[t])
+    stop, m = NONE, NONE
+    if t in ("fc", "fr"):
+        if form == "sl" or rnd.random() < 0.6:
+            stop = rnd.randint(0, 12)
+        if rnd.random() < 0.3:
+            m = rnd.choice([0, 2, 3])
+    if t == "src":
+        m = rnd.choice([2, 2, 0, 1, 3])
+    return full_kind(t, stop, m, form)
 
 
 def random_cfg(rnd):
-    brs = []
-    for _ in range(rnd.randint(0, 5)):
-        t = rnd.choice(["src", "fc", "fc", "fr", "fr", "map", "filt", "seq"])
-        stop = NONE
-        if t in ("fc", "fr") and rnd.random() < 0.6:
-            stop = rnd.randint(0, 12)
-        brs.append({"t": t, "stop": stop})
+    brs = [random_kind(rnd) for _ in range(rnd.randint(0, 5))]
     n = rnd.randint(0, 30)
-    bs = rnd.choice([NONE, 1, 2, 3, 4, 5, 7, 10, n + 1, 1000])
+    bs = rnd.choice([NONE, 1, 2, 3, 4, 5, 7, 10, n, n + 1, 1000])
+    if bs == 0:
+        bs = 1
     return brs, n, bs
 
 
 def run(ctx):
     tag = "thorough" if ctx.thorough else "quick"
-    ctx.assume("branches are harness elements with tagged outputs; flow values are the integers 0..N-1")
-    ctx.mc("Split", "Split_%s.cfg" % tag, coverage=True,
-           must_cover=("Identity", "ReadBlock", "BranchSrc", "BranchFC", "BranchFR", "BranchSeq", "BlockDone", "Final", "Rerun"))
-    ctx.mc("SplitCT", "SplitCT_mc.cfg", coverage=True, must_cover=("FillOne", "Compute", "Request", "Call"))
+    ctx.assume("branches are harness elements with tagged outputs; flow values are the integers 0..N-1 "
+               "(and, for every scenario without arithmetic branches, arbitrary objects at these positions)")
+    branch_actions = ("ReadBlock", "BranchSrc", "BranchFC", "BranchFR", "BranchSeq", "BlockDone", "Final")
+    th = "_thorough" if ctx.thorough else ""
+    jobs = [tlcpar.mc("Split", "Split_%s.cfg" % tag, ("Identity", "Rerun") + branch_actions),
+            tlcpar.mc("Split", "Split_audit%s.cfg" % th, ("Identity", "Abort", "Suspend", "Resume") + branch_actions),
+            tlcpar.mc("SplitCT", "SplitCT%s_mc.cfg" % th, ("FillOne", "Compute", "Request", "ResetZ", "Call")),
+            tlcpar.export("Split", "Split_%s_export.cfg" % tag, 1000),
+            tlcpar.export("Split", "Split_audit%s_export.cfg" % th, 1000),
+            tlcpar.export("SplitCT", "SplitCT%s_export.cfg" % th, 100)]
+    res = tlcpar.run_jobs(ctx, jobs)
+    recs, recs2 = res[3] + res[4], res[5]
     if ctx.thorough:
         ctx.mc("Split", "Split_deep.cfg")   # 4 branches over the 7-kind alphabet, exhaustive
-    recs = ctx.export("Split", "Split_%s_export.cfg" % tag, min_records=1000)
-    for rec in recs:
-        replay_run(ctx, rec)
+    seen_modes = collections.Counter()
+    for i, rec in enumerate(recs):
+        seen_modes[rec["mode"]] += 1
+        replay_run(ctx, rec, i)
+    for m in ("rerun", "abort", "inter"):
+        if not seen_modes[m]:
+            raise core.MachineryError("no exported scenario of mode %s" % m)
+    ctx.extra["scenarios_by_mode"] = dict(seen_modes)
     ctx.sample({"spec_behaviour": recs[len(recs) // 2]})
-    recs2 = ctx.export("SplitCT", "SplitCT_export.cfg", min_records=100)
+    ctx.sample({"spec_behaviour_abandoned_run": next(r for r in recs if r["mode"] == "abort" and r["cut"]["n"] > 0)})
     for rec in recs2:
         replay_ct(ctx, rec)
     ctx.sample({"spec_behaviour_common_type": recs2[len(recs2) // 2]})
@@ -150,17 +466,30 @@ def run(ctx):
     trace = []
     for _ in range(4000 if ctx.thorough else 600):
         brs, n, bs = random_cfg(rnd)
+        copy_buf, fk = rnd.random() < 0.7, rnd.choice(sl.FLOW_KINDS)
+        if sl.WATCHDOG["hit"]:
+            fk = "iter"
         try:
-            out = sl.run_split(brs, n, bs, rnd.random() < 0.7)
+            out = sl.run_split(brs, n, bs, copy_buf, flow=fk)
         except Exception as exc:   # noqa
-            ctx.violation("random:%s:raised:%s" % (kinds_key(brs), exc_name(exc)), {"brs": brs, "N": n, "bs": bs})
+            try:
+                sl.make_split(brs, bs, copy_buf)
+            except Exception:   # noqa
+                make_or_violation(ctx, brs, bs, copy_buf)
+                continue
+            ctx.violation("random:%s:raised:%s" % (kinds_key(brs), exc_name(exc)), {"brs": brs, "N": n, "bs": bs, "flow": fk})
             continue
         trace.append({"brs": brs, "N": n, "bs": bs, "out": out})
     ctx.trace_check("Trace_Split", "Trace_Split.cfg", trace, lambda r: kinds_key(r["brs"]))
     ctx.binding_demo("Trace_Split", "Trace_Split.cfg", trace,
                      lambda r: dict(r, out=r["out"][:-1]) if r["out"] else None)
     return ctx.finish(
-        rule="S2C: every (branch list, N, bufsize) of the bounded Split model with copy_buf in {T,F} and every "
-             "behaviour of SplitCT (common-type methods, Zip); non-trivial = at least one branch and a non-empty "
-             "flow; C2S: seeded random configurations (<= 5 branches, N <= 30) validated by Trace_Split",
+        rule="S2C: every scenario of the bounded Split model (classic: <= 2 branches of 13 kinds; wide: every mix "
+             "of the four classes with <= 4 branches; forms: every way of handing a branch to Split, result "
+             "multiplicities 0/1/2, Sources with tails, Splits as branches; modes: the same object rerun, "
+             "abandoned at every point, two runs interleaved) with copy_buf in {T,F}, flows given as iterator / "
+             "list / tuple / range / generator and as odd objects, and every behaviour of SplitCT (common-type "
+             "methods in every legal order, Zip with reset and fields, branches as elements / tuples / sequence "
+             "objects); non-trivial = at least one branch and a non-empty flow; C2S: seeded random "
+             "configurations (<= 5 branches of all kinds and forms, N <= 30) validated by Trace_Split",
         exhaustive=True)
